@@ -19,7 +19,7 @@ func GeneratePattern(pattern profile.PatternRule, iriExpander *misc.IriExpander)
 	// Add the validation
 	// a raw string cannot contain a backtick: such a pattern is written as an escaped string instead
 	patternLiteral := "`" + pattern.Argument + "`"
-	if strings.Contains(pattern.Argument, "`") {
+	if strings.ContainsAny(pattern.Argument, "`\ufeff") {
 		patternLiteral = regoString(pattern.Argument)
 	}
 	if pattern.Negated {
